@@ -625,6 +625,11 @@ def main(tier, seed, only=None):
     if os.environ.get("VERIF_C19_CONFIGS"):   # tooling only: restrict to the named configurations, e.g. "clang++ -O2 -flto"
         want = [w.strip() for w in os.environ["VERIF_C19_CONFIGS"].split(",")]
         configs = [c for c in CONFIGS_QUICK + CONFIGS_EXTRA if cfg_name(c) in want]
+    cond = cat.conditional_build_flags()
+    if cond["flags"]:
+        # conditionally compiled code in the headers (#if __AVX__, NDEBUG, a library switch ...): also build with the conditions ON
+        configs = configs + [{"cxx": "g++", "opt": ["-O2"] + cond["flags"]}, {"cxx": "clang++", "opt": ["-O0"] + cond["flags"]}]
+        log("conditional code found in the headers (%s): extra configurations with %s" % (", ".join(cond["macros"]), " ".join(cond["flags"])))
     configs = [c for c in configs if shutil.which(c["cxx"])]
     groups = int(os.environ.get("VERIF_C19_GROUPS", "16"))
     programs = covering_programs(cat, rng, groups)
@@ -657,9 +662,9 @@ def main(tier, seed, only=None):
         orders = [["u0", "main"], ["main", "u0"]] if cover else link_orders(p, prng, 16 if thorough else 6)
         has_by = any(t["role"] == "bystander" for t in p["tus"])
         for cfg in configs:
-            if cover and cfg not in CONFIGS_QUICK and not thorough:
+            if cover and cfg not in CONFIGS_QUICK and not thorough and cfg in CONFIGS_EXTRA:
                 continue
-            if not cover and cfg not in CONFIGS_QUICK and (pi % 3 != 0 if thorough else (pi - ncover) >= 3):
+            if not cover and cfg in CONFIGS_EXTRA and (pi % 3 != 0 if thorough else (pi - ncover) >= 3):
                 continue    # the extra configurations (LTO, no-PIE, no-inline) take a third of the seeded programs (quick: LTO on three)
             for o in orders:
                 jobs.append((pi, {"cfg": cfg, "packaging": "objects", "order": o}))
@@ -998,6 +1003,9 @@ def api_sweep(seed, thorough, only=None, cfg_filter=None):
     from . import c20
     from .c20_gen import HarnessGen
     cfgs = [("g++", ["-O0"]), ("clang++", ["-O0"])] + ([("g++", ["-O2"]), ("clang++", ["-O2"])] if thorough else [])
+    cflags_ = Catalogue().conditional_build_flags()["flags"]
+    if cflags_:
+        cfgs.append(("g++", ["-O0"] + cflags_))
     cfgs = [c for c in cfgs if shutil.which(c[0]) and (cfg_filter is None or " ".join([c[0]] + c[1]) == cfg_filter)]
     subset = None
     if not thorough and only is None:
